@@ -6,6 +6,7 @@ package main
 // head and the index map head, which change exactly at these counts.
 
 import (
+	"bytes"
 	"fmt"
 	"strings"
 
@@ -97,13 +98,60 @@ func c04GenVariantLimit(c *mc.Ctx) *c04Case {
 	return cs
 }
 
+// c04GenSweep: one quantity of one exchange swept through EVERY value of a range (window bugs - a scratch
+// buffer of 64 or 512 bytes, an off-by-one at a table end - sit between the boundary classes of the grids):
+// header value length, header name length, body length, URL length 0..N, and every 7-bit byte inside a header
+// value.  A second, plain exchange follows so that offsets after the swept one are observed too.
+func c04GenSweep(c *mc.Ctx) *c04Case {
+	cs := &c04Case{}
+	cs.Ver = []string{"b2", "b1"}[c.Free(2, "version")]
+	cs.Primary = &c04PrimaryPool[0]
+	maxLen := c.Pick(600, 1200)
+	dim := c.Free(5, "quantity")
+	name, value, body, u := "X-Swept", "v", []byte("body"), "https://a.test/swept"
+	var desc string
+	switch dim {
+	case 0:
+		n := c.Free(maxLen+1, "header value length")
+		value = strings.Repeat("v", n)
+		desc = fmt.Sprintf("header value of %d bytes", n)
+	case 1:
+		n := 1 + c.Free(300, "header name length")
+		name = ("x-" + strings.Repeat("n", n))[:n]
+		if n == 1 {
+			name = "x"
+		}
+		desc = fmt.Sprintf("header name of %d bytes", n)
+	case 2:
+		n := c.Free(maxLen+1, "body length")
+		body = bytes.Repeat([]byte{'b'}, n)
+		desc = fmt.Sprintf("body of %d bytes", n)
+	case 3:
+		n := len("https://a.test/") + c.Free(maxLen+1, "URL length")
+		u = c04Pad("https://a.test/", n, 'u')
+		desc = fmt.Sprintf("URL of %d bytes", n)
+	default:
+		b := c.Free(128, "byte inside a header value")
+		value = "a" + string([]byte{byte(b)}) + "c"
+		desc = fmt.Sprintf("header value a<%02x>c", b)
+	}
+	hdr := []refbundle.LHeader{{Name: "Content-Type", Values: []string{"text/plain"}}, {Name: name, Values: []string{value}}}
+	cs.Exs = []c04Ex{{URL: u, Status: 200, Hdr: hdr, Body: body}, {URL: "https://a.test/after", Status: 200, Hdr: c04HeaderSet(0, 1), Body: []byte("after")}}
+	cs.Desc = fmt.Sprintf("%s sweep: %s", cs.Ver, desc)
+	return cs
+}
+
 func init() {
 	p4 := props["C04"]
 	p4.Harnesses = append(p4.Harnesses, &mc.Harness{Name: "C04/many", Run: func(c *mc.Ctx) { c04Check(c, "C04/many", c04GenMany(c)) }})
 	p4.Rule += " C04/many: b1/b2 x exchange count {4,22,23,24,25,63,64,65,255,256,257; thorough also 127,128,1000,1024,4096,65535,65536} (the head-size boundaries of the index map and the responses array) x body length {1,0,24} x insertion in ascending / descending URL order, URLs of varying length."
 	p4.Harnesses = append(p4.Harnesses, &mc.Harness{Name: "C04/variant-limit", Run: func(c *mc.Ctx) { c04Check(c, "C04/variant-limit", c04GenVariantLimit(c)) }})
 	p4.Rule += " C04/variant-limit: one b1 URL with a complete variant set of 100x100, 10x10x100 and 101x99 keys (at and just below the writer's limit of 10000), row-major and reversed insertion."
+	p4.Harnesses = append(p4.Harnesses, &mc.Harness{Name: "C04/sweeps", Run: func(c *mc.Ctx) { c04Check(c, "C04/sweeps", c04GenSweep(c)) }})
+	p4.Rule += " C04/sweeps: b1/b2 x one quantity of one exchange through every value of a range: header value length 0..600 (thorough 0..1200), header name length 1..300, body length, URL length, every 7-bit byte inside a header value."
 	p3 := props["C03"]
+	p3.Harnesses = append(p3.Harnesses, &mc.Harness{Name: "C03/sweeps", Run: func(c *mc.Ctx) { c03Check(c, "C03/sweeps", c04GenSweep(c)) }})
+	p3.Rule += " C03/sweeps: the same generator as C04/sweeps."
 	p3.Harnesses = append(p3.Harnesses, &mc.Harness{Name: "C03/variant-limit", Run: func(c *mc.Ctx) { c03Check(c, "C03/variant-limit", c04GenVariantLimit(c)) }})
 	p3.Rule += " C03/variant-limit: the same generator as C04/variant-limit."
 	p3.Harnesses = append(p3.Harnesses, &mc.Harness{Name: "C03/many", Run: func(c *mc.Ctx) { c03Check(c, "C03/many", c04GenMany(c)) }})
